@@ -99,10 +99,11 @@ CHECKS = {
     "C16": {
         "level": "exploration",
         "technique": "runtime monitoring: client-boundary history checker of concurrent RemoteClient calls against a scripted loopback server with self-identifying responses, under the Go race detector in the thorough tier",
-        "level_text": "Each round starts the real RemoteClient against a scripted TCP server and issues 2-24 concurrent calls with distinct keys; the server answers by script (permuted by delays, duplicated, rejected, never, after the time-out) and interleaves unsolicited responses. Every response identifies its key, so the oracle checks per call that the returned value / RejectError / Timeout is the one scripted for that call, and that a time-out is not early. Outputs-lookup rounds cover repeated txids and out-of-range indexes. Exploration: schedules and response orders are unbounded. Pairs of calls of one kind are staggered so that the first times out while the second is pending; a second wave retries keys that were rejected or never answered; height 0 is a key. In two rounds of five a hook slows the goroutine that owns the pending-request list (1 ms per iteration), so registrations and responses wait in its channels together as on a loaded machine; in one round of ten it is stalled once for longer than the request time-out while every call is unanswered, so registrations and deregistrations wait together and the second wave asks for the same keys.",
+        "level_text": "Each round starts the real RemoteClient against a scripted TCP server and issues 2-24 concurrent calls with distinct keys; the server answers by script (permuted by delays, duplicated, rejected, never, after the time-out) and interleaves unsolicited responses. Every response identifies its key, so the oracle checks per call that the returned value / RejectError / Timeout is the one scripted for that call, and that a time-out is not early. Outputs-lookup rounds cover repeated txids and out-of-range indexes. Exploration: schedules and response orders are unbounded. Pairs of calls of one kind are staggered so that the first times out while the second is pending; a second wave retries keys that were rejected or never answered; height 0 is a key. In two rounds of five a hook slows the goroutine that owns the pending-request list (1 ms per iteration), so registrations and responses wait in its channels together as on a loaded machine; in one round of ten it is stalled once for longer than the request time-out while every call is unanswered, so registrations and deregistrations wait together and the second wave asks for the same keys. Slow-handshake rounds (TestVerif_C16Retry): the server holds its accept back beyond the message time-out, calls issued in that window fail on their send, the same keys are asked for again after the handshake while the server ignores the late copies of the failed calls; every retry must return its answer.",
         "level_note": "Trusted: the scripted server (uses the repository's own message codecs and key derivation). An answered call that times out is only judged when the answer was on the wire >120 ms (220 ms in the slowed rounds) before the deadline and the round reproduces when re-run alone.",
         "runs": [
             {"pkg": "pkg/client", "test": "TestVerif_C16", "shards": {"quick": 8, "thorough": 16}},
+            {"pkg": "pkg/client", "test": "TestVerif_C16Retry", "shards": {"quick": 6, "thorough": 16}},
         ],
     },
     "C17": {
